@@ -9,8 +9,8 @@ package stage
 // line: S NOW nops {op}*nops = {out}*nops
 //   ops:  PR name size | RC name renamed prev size hash beg end time datahex rerr
 //         ST | RQ k {name renamed prev hash beg end time}*k | SQ name sentoff
-//         SC | CL | RS | AG name | TM name ext datahex | TF
-//   outs: PR,AG,TM: "-" ; RC: 0|1 ; RQ: n ; SQ: code ; SC: ncmp {cmp}* ;
+//         SC | CL | RS | AG name | TM name ext datahex | TF | AA seconds | CC
+//   outs: PR,AG,TM,AA: "-" ; CC: ncache {name state}* ; RC: 0|1 ; RQ: n ; SQ: code ; SC: ncmp {cmp}* ;
 //         ST,CL,RS,TF: snapshot = nstage {name ext size md5}* ncmp {cmp}* nfinal {name size md5}* nlog {name renamed hash size}*
 //   cmp = name renamed prev size hash nparts {b e}*
 
@@ -245,6 +245,8 @@ func verifStageCase(tmp string, caseNo int, ops []vsOp) string {
 			fmt.Fprintf(&w, " SQ %s %d", gen.Hex(op.name), op.num)
 		case "AG":
 			fmt.Fprintf(&w, " AG %s", gen.Hex(op.name))
+		case "AA":
+			fmt.Fprintf(&w, " AA %d", op.num)
 		case "TM":
 			fmt.Fprintf(&w, " TM %s %d %s", gen.Hex(op.name), op.num, vsHex(op.data))
 		default:
@@ -359,6 +361,29 @@ func verifStageCase(tmp string, caseNo int, ops []vsOp) string {
 			old := time.Now().Add(-25 * time.Hour)
 			os.Chtimes(filepath.Join(e.stageDir, op.name+partExt), old, old)
 			w.WriteString(" -")
+		case "AA":
+			// op.num seconds pass (a multiple of a day): everything the receiver remembers or has
+			// written moves into the past - the in-memory cache and the receive log on disk
+			e.settle()
+			vsAgeAll(e, time.Duration(op.num)*time.Second)
+			w.WriteString(" -")
+		case "CC":
+			e.settle()
+			e.st.cleanCache()
+			if os.Getenv("VERIF_DEBUG") != "" {
+				fmt.Fprintln(os.Stderr, "DEBUG cacheTime after cleanCache:", e.st.cacheTime.Unix(), "now", time.Now().Unix())
+			}
+			e.st.cacheLock.RLock()
+			var ents []string
+			for _, f := range e.st.cache {
+				ents = append(ents, fmt.Sprintf("%s %d", gen.Hex(f.name), f.state))
+			}
+			e.st.cacheLock.RUnlock()
+			sort.Strings(ents)
+			fmt.Fprintf(&w, " %d", len(ents))
+			for _, x := range ents {
+				w.WriteString(" " + x)
+			}
 		case "TM":
 			p := filepath.Join(e.stageDir, op.name+exts[op.num])
 			if _, err := os.Stat(p); err == nil {
@@ -375,6 +400,66 @@ func verifStageCase(tmp string, caseNo int, ops []vsOp) string {
 	}
 	w.WriteString("\n")
 	return w.String()
+}
+
+// vsAgeAll moves every time the receiver holds d into the past: cache entries, the
+// cache start time, the batch times, and the records of the receive log (rewritten
+// into the day files of their new dates, in the logger's own format)
+func vsAgeAll(e *vsEnv, d time.Duration) {
+	s := e.st
+	s.cacheLock.Lock()
+	for _, f := range s.cache {
+		if !f.logged.IsZero() {
+			f.logged = f.logged.Add(-d)
+		}
+		f.time = f.time.Add(-d)
+	}
+	if !s.cacheTime.IsZero() {
+		s.cacheTime = s.cacheTime.Add(-d)
+	}
+	for i := range s.cacheTimes {
+		s.cacheTimes[i] = s.cacheTimes[i].Add(-d)
+	}
+	s.cacheLock.Unlock()
+	type rec struct {
+		line string
+		t    time.Time
+	}
+	var recs []rec
+	var files []string
+	filepath.Walk(e.logDir, func(p string, info os.FileInfo, err error) error {
+		if err != nil || info.IsDir() {
+			return nil
+		}
+		files = append(files, p)
+		b, _ := os.ReadFile(p)
+		for _, l := range strings.Split(string(b), "\n") {
+			f := strings.Split(l, ":")
+			if len(f) < 5 {
+				continue
+			}
+			var ts int64
+			fmt.Sscanf(f[len(f)-2], "%d", &ts)
+			nt := time.Unix(ts, 0).Add(-d)
+			f[len(f)-2] = fmt.Sprint(nt.Unix())
+			recs = append(recs, rec{strings.Join(f, ":"), nt})
+		}
+		return nil
+	})
+	for _, p := range files {
+		os.Remove(p)
+	}
+	sort.SliceStable(recs, func(i, j int) bool { return recs[i].t.Before(recs[j].t) })
+	for _, r := range recs {
+		p := filepath.Join(e.logDir, fmt.Sprintf("%04d%02d", r.t.Year(), r.t.Month()), fmt.Sprintf("%02d", r.t.Day()))
+		os.MkdirAll(filepath.Dir(p), 0o755)
+		fh, err := os.OpenFile(p, os.O_APPEND|os.O_CREATE|os.O_WRONLY, 0o644)
+		if err != nil {
+			panic(err)
+		}
+		fmt.Fprintln(fh, r.line)
+		fh.Close()
+	}
 }
 
 // ---- replay parsing -----------------------------------------------------------
@@ -396,6 +481,10 @@ func verifStageParse(l string) []vsOp {
 	var v int64
 	fmt.Sscan(f[2], &v)
 	nops := int(v)
+	// a replay happens later than the generation of the line: announced file times move along
+	var lineNow int64
+	fmt.Sscan(f[1], &lineNow)
+	delta := time.Now().Unix() - lineNow
 	var ops []vsOp
 	for k := 0; k < nops; k++ {
 		kind := f[i]
@@ -410,6 +499,7 @@ func verifStageParse(l string) []vsOp {
 			op.part.size = num()
 			op.part.hash = str()
 			op.part.beg, op.part.end, op.part.time = num(), num(), num()
+			op.part.time += delta
 			op.data = hexs()
 			op.rerr = num() == 1
 		case "RQ":
@@ -417,6 +507,7 @@ func verifStageParse(l string) []vsOp {
 			for j := 0; j < n; j++ {
 				p := vsPart{name: str(), renamed: str(), prev: str(), hash: str()}
 				p.beg, p.end, p.time = num(), num(), num()
+				p.time += delta
 				op.parts = append(op.parts, p)
 			}
 		case "SQ":
@@ -424,6 +515,8 @@ func verifStageParse(l string) []vsOp {
 			op.num = num()
 		case "AG":
 			op.name = str()
+		case "AA":
+			op.num = num()
 		case "TM":
 			op.name = str()
 			op.num = num()
@@ -582,6 +675,43 @@ func verifStageMatrix2(r *gen.Rand) []vsOp {
 		recv(f, 0, len(f.content))
 	}
 	names := [][2]string{{"site/data.bin", "site/next.bin"}, {"a", "b"}, {"g.1", "g.2"}, {"d/e/x", "d/y"}}[r.Intn(4)]
+	if r.Chance(1, 3) {
+		// (c) two days pass after delivery, the cache ages out, then a late retransmission arrives:
+		// the delivery is known from the log only
+		E := mk(names[0], "", 2+r.Intn(8))
+		F := mk(names[1], "", 2+r.Intn(8))
+		E.time = now - 5000
+		F.time = now + 50
+		whole(E)
+		ops = append(ops, vsOp{kind: "ST"})
+		whole(F)
+		ops = append(ops, vsOp{kind: "ST"}, vsOp{kind: "AA", num: 172800})
+		E.time -= 172800
+		F.time -= 172800
+		if r.Chance(2, 3) {
+			ops = append(ops, vsOp{kind: "RS"})
+		}
+		q := func(f vsFile) {
+			ops = append(ops, vsOp{kind: "RQ", parts: []vsPart{part(f, 0, len(f.content))}})
+		}
+		if r.Chance(2, 3) {
+			q(E) // pulls the old records into the cache
+		}
+		ops = append(ops, vsOp{kind: "CC"})
+		if r.Chance(1, 3) {
+			ops = append(ops, vsOp{kind: "SQ", name: F.name, num: -3600})
+		}
+		q(F)
+		whole(F)
+		ops = append(ops, vsOp{kind: "ST"})
+		if r.Chance(1, 2) {
+			ops = append(ops, vsOp{kind: "CC"})
+			q(E)
+			whole(E)
+			ops = append(ops, vsOp{kind: "ST"})
+		}
+		return ops
+	}
 	if r.Chance(1, 2) {
 		// (a) new version of a delivered name, cleaner between Prepare and the parts
 		v1 := mk(names[0], "", 2+r.Intn(10))
